@@ -192,9 +192,10 @@ def solve_sat(
 
     def unassign_to(level):
         nonlocal prop_head
-        while len(trail_lim) > level:
-            trail_lim.pop()
-        target = trail_lim[-1] if trail_lim else 0
+        if len(trail_lim) <= level:
+            return
+        target = trail_lim[level]
+        del trail_lim[level:]
         while len(trail) > target:
             var = trail.pop()
             phase[var] = vals[var] == 1
@@ -202,7 +203,7 @@ def solve_sat(
             if not in_heap[var]:
                 heappush(var_heap, (-activity[var], var))
                 in_heap[var] = True
-        prop_head = len(trail)
+        prop_head = min(prop_head, len(trail))
 
     def find_pure_literals():
         pos_count = [0] * (n_vars + 1)
@@ -496,19 +497,22 @@ def solve_sat(
                     return Result(sol, len(sol), decisions, propagations)
                 return Result(sol, len(sol), decisions, propagations, solutions=tuple(all_solutions))
 
-            blocking = [(-v if vals[v] == 1 else v) for v in range(1, n_vars + 1) if vals[v] != UNDEF]
+            # Literals fixed at level 0 are false in the blocking clause forever, so leave them out
+            blocking = [(-v if vals[v] == 1 else v) for v in range(1, n_vars + 1) if vals[v] != UNDEF and levels[v] > 0]
+            if not blocking:
+                return Result(all_solutions[0], len(all_solutions[0]), decisions, propagations, solutions=tuple(all_solutions))
+
             clause_idx = len(clauses) + len(learned)
             learned.append(blocking)
-            lbd_scores.append(n_vars)
-
-            if len(blocking) >= 2:
-                add_watch(blocking[0], clause_idx)
-                add_watch(blocking[1], clause_idx)
-            elif len(blocking) == 1:
-                add_watch(blocking[0], clause_idx)
+            lbd_scores.append(0)  # never dropped by reduce_db
 
             unassign_to(0)
             dec_level = 0
+            if len(blocking) >= 2:
+                add_watch(blocking[0], clause_idx)
+                add_watch(blocking[1], clause_idx)
+            else:
+                assign(lit_var(blocking[0]), blocking[0] > 0, clause_idx)
             conflict = propagate()
             continue
 
